@@ -1,6 +1,10 @@
 /* C10: the share arithmetic is GF(2^8): tables are powers/logs of the generator 2, gf_mul is the field product,
    gf_div its inverse and division by zero raises invalid_argument */
+#ifdef SHAMIR_UNIT_B
+#include "shamir_b.c"   /* lowered from contracts/shamir_b.spec: reserve() not modelled (bounded groups) */
+#else
 #include "shamir.c"
+#endif
 #include "gf256.h"
 #include "common.h"
 
